@@ -48,7 +48,7 @@ def theorem_cone(pid):
     for e in extra_pfs:
         visit(e)
     src = open(pf).read() + "".join(open(e).read() for e in extra_pfs)
-    thms = re.findall(r"^\s*(?:Theorem|Corollary)\s+(\w+)", src, re.M)
+    thms = re.findall(r"^\s*(?:Theorem|Corollary|Example)\s+(\w+)", src, re.M)
     qed = 0
     for p in order:
         qed += len(re.findall(r"\b(?:Qed|Defined)\.", open(p).read()))
